@@ -5,6 +5,8 @@ package main
 // import -> export is the identity, imported indexes are rebuilt.
 
 import (
+	"unicode/utf8"
+
 	"bytes"
 	"fmt"
 	"math/big"
@@ -180,7 +182,13 @@ func (c *c19Mon) scenario(sc *StepCtx) {
 	} else {
 		bz2, _ := cdc.MarshalJSON(&gs2)
 		if !bytes.Equal(bz, bz2) {
-			m.fail(sc, "C19", "json-roundtrip", "differs", "genesis JSON differs after read-back")
+			cls := "differs"
+			for _, d := range gs.Definitions {
+				if !utf8.ValidString(d.Description) || !utf8.ValidString(d.AuthorDescription) {
+					cls = "invalid-utf8-in-description"
+				}
+			}
+			m.fail(sc, "C19", "json-roundtrip", cls, "genesis JSON differs after read-back (%s)", cls)
 		} else {
 			imp = &gs2
 			m.hit("C19", "json-roundtrip-ok", "")
